@@ -30,9 +30,9 @@ def run(ck, F, tier):
                       'over 0..65535 and equals div_ceil), chroma_samples_per_row = cw; the accessors return exactly those fields, as slices; R the planes cannot be '
                       'resized after construction (private Vec fields, the only &mut Vec use is deref_mut to a slice); Q yuv420_to_rgba derives the chroma row length as '
                       'div_ceil(y_width, 2) - the same function - and returns a vector of len(y)*4 bytes; J2/S the strength table covers quantizers 1..31 with values 1..12 '
-                      'and the quantizer is a 5-bit field. That deblock() accepts every such plane is C16. Panic-freedom of the slice arithmetic inside yuv420_to_rgba for '
+                      'and the quantizer is a 5-bit field. That deblock() accepts every such plane is decided by C16\'s rules, re-run here (C16.*). Panic-freedom of the slice arithmetic inside yuv420_to_rgba for '
                       'every size is relational and NOT decided (see C08).')
-    ck.assumptions += ['f32 arithmetic on integers and halves below 2^24 is exact', 'deblock() accepting every size and strength is C16\'s result, not re-derived here']
+    ck.assumptions += ['f32 arithmetic on integers and halves below 2^24 is exact', 'preconditions of deblock(): data.len() % width == 0, width >= 1, strength in 1..=12']
     ck.rule('P', 'DecodedPicture::new: luma = vec![0; w*h], chroma_b = chroma_r = vec![0; cw*ch], chroma_samples_per_row = cw, with (w, h) = format.into_width_and_height()? '
                  'and cw = ceil(w/2), ch = ceil(h/2) for all w, h in 0..=65535')
     b = F.body(DP + '::new'); T = Table(F, DP + '::new', cast_kinds=True); N = Norm(T)
@@ -159,8 +159,14 @@ def run(ck, F, tier):
         ck.ok('Q', 'the `y.is_empty()` shortcut returns before any division (%d division sites)' % len(divs), where_of(b, emp))
     else:
         ck.violation('Q', 'Q : yuv420_to_rgba : empty shortcut', where_of(b), 'a division by the width can execute for an empty picture')
-    # strength table and quantizer range
+    # strength table and quantizer range; and deblock() itself accepting every such plane: C16's rules re-run here (the property asks that deblocking completes)
+    from ..report import Scoped
+    s16 = Scoped(ck, 'C16.')
     c16.table_j2(ck, F)
+    from . import panicfree
+    mech = {'DB1': c16.db1_horizontal_loop(s16, F), 'DB2': c16.db2_vertical_octets(s16, F)}
+    PA = panicfree.run_inventory(s16, F, [c16.DB + 'deblock'], mech, scope=('deblock::',), floors={'sites': 80, 'functions': 12})
+    panicfree.run_termination(s16, F, PA, 8)
     ck.rule('S', 'Picture.quantizer is a 5-bit field (0..31) at both construction sites, so QUANT_TO_STRENGTH[quantizer] is in range')
     name = 'h263_rs::parser::picture::decode_picture::{closure#0}'
     Tp = Table(F, name)
